@@ -53,6 +53,16 @@ def run(tier, seed, t0):
         if len(e.get("hits", [])) > 50:
             rec["event"]["hits"] = e["hits"][:50] + ["..."]
         v.violation(rec)
+    # Move by inexact offsets: the moved indexed series against an index-free series of the same moved points (Trace_C04Move)
+    mpath = os.path.join(out, "c04.move.ndjson")
+    moved_events = 0
+    if os.path.exists(mpath) and os.path.getsize(mpath) > 0:
+        mev, mmism, mr = vlib.judge_trace("Trace_C04Move", mpath, timeout=3000)
+        moved_events = len(mev)
+        for m in mmism:
+            e = mev[m[1] - 1]
+            v.violation({"property": PID, "event": e, "what": "after Move(%s, %s) the %s-indexed series of %d points (layout %s) reports the segments %s for the query %s, an index-free series of the "
+                         "same moved points reports %s" % (e["dx"], e["dy"], e["kind"], e["points"], e["layout"], str(e["indexed"])[:200], e["q"], str(e["plain"])[:200])})
     # model-conformance diagnostic at the real constants: callback ORDER predicted by the TLA+ machines
     drift = {}
     for mod, f, cfg in (("Trace_QT", "c04.qt.ndjson", "CONSTANTS MaxItems = 32  MaxDepth = 16  W = 8  MaxN = 0  B = 256  Alphabet = {}\nSPECIFICATION QTSpec\nINVARIANT Judge\nCHECK_DEADLOCK FALSE\n"),
@@ -71,7 +81,7 @@ def run(tier, seed, t0):
     cov = {
         "states": qm["distinct"] + rm["distinct"] + r.distinct,
         "transitions": qm["generated"] + rm["generated"] + r.generated,
-        "traces_validated_against_impl": 1,
+        "traces_validated_against_impl": 1, "moved_by_inexact_offsets_events": moved_events,
         "evaluations": summ["searches"],
         "distinct_nontrivial": len({(e["sref"], tuple(e["q"]), e["stop"], e["kind"], e["minpts"], e["dx"], e["dy"]) for e in searches}),
         "rule": "model level (T5): TLC explores every insertion sequence of <= 4 rectangles from a 24-rectangle alphabet (all position "
